@@ -5,7 +5,10 @@ ordering converters of the `HelicityModel` attrs class + `naming.natural_sorting
 
 * names are lists of code points (`List Nat`), so that every function below reduces in the
   kernel (`decide`) and no `String` primitive is involved in a theorem;
-* a symbol is `(name, assumptions-id)` — two symbols are the same SymPy object iff both agree;
+* a symbol is `(name, assumption declaration)` — two symbols are the same SymPy object iff both agree.
+  The declaration is the COMPLETE `assumptions0` dict (every True- and every False-valued fact), written
+  as a ternary numeral (see "assumption declarations" below), not an opaque id: a rename that rebuilds a
+  symbol from only part of the facts (e.g. only the ones that hold) produces a different `Sym`;
 * expressions are trees over symbols, opaque constants and uninterpreted operators
   (`app classId args`): `xreplace` with a symbol→symbol rule is purely structural on such trees.
   What SymPy's constructors do when a node is rebuilt (`Add`/`Mul` flattening, sorting of
@@ -24,8 +27,55 @@ abbrev Name := List Nat
 
 structure Sym where
   name : Name
+  /-- the complete assumption declaration `assumptions0`, as a ternary numeral (`declFacts` decodes it) -/
   asm : Nat
 deriving DecidableEq, Repr, Inhabited
+
+/-! ### assumption declarations
+
+`Sym.asm` IS the symbol's assumption declaration: the dict `s.assumptions0`, i.e. every fact SymPy holds
+about the symbol — the ones declared or derived True AND the ones declared or derived False — and
+`Symbol(name, **assumptions0)` is that symbol again (the harness checks this fixed-point property for
+every declaration of a run). It is written as a numeral of `factWidth` ternary digits; digit `i` (most
+significant first) belongs to the `i`-th of SymPy's 31 fact names in alphabetical order
+(`sorted(sympy.core.assumptions._assume_defined)`: 0 algebraic, 1 antihermitian, 2 commutative, 3 complex,
+…, 28 real, 29 transcendental, 30 zero):
+
+    0 = in `assumptions0` with value False     1 = with value True     2 = not in `assumptions0`
+
+With this digit assignment the numeric order of two declarations is the order of the strings
+`str(sorted(s.assumptions0.items()))` (second component of the sort key of c9b6eb9): at the first fact
+where two declarations differ, `'…', False` < `'…', True` < a later fact name or the closing bracket.
+The harness re-checks that on all pairs of declarations of a run. -/
+
+def factWidth : Nat := 31
+
+/-- digit of fact `i` in a declaration -/
+def factDigit (i asm : Nat) : Nat := (asm / 3 ^ (factWidth - 1 - i)) % 3
+
+/-- the empty `assumptions0` (no such symbol exists: `commutative` is always there) -/
+def noFacts : Nat := 3 ^ factWidth - 1
+
+/-- add fact `i` with value `b` to a declaration that does not mention it -/
+def declare (asm i : Nat) (b : Bool) : Nat := asm - (if b then 1 else 2) * 3 ^ (factWidth - 1 - i)
+
+/-- the declaration with exactly the given facts (distinct fact numbers `< factWidth`) -/
+def mkDecl (facts : List (Nat × Bool)) : Nat := facts.foldl (fun a f => declare a f.1 f.2) noFacts
+
+/-- `sorted(assumptions0.items())` with fact numbers for fact names -/
+def declFacts (asm : Nat) : List (Nat × Bool) :=
+  (List.range factWidth).filterMap (fun i =>
+    match factDigit i asm with
+    | 0 => some (i, false)
+    | 1 => some (i, true)
+    | _ => none)
+
+/-- The keyword arguments `{k: v for k, v in assumptions0.items() if v}`: only the facts that hold.
+NOT what `rename_symbols` passes to `Symbol(new_name, **…)` — it passes all of `assumptions0` — but what a
+"the derived facts are implied by the ones that hold" rebuild would pass; it drops every False-valued fact
+(SymPy re-derives those implied by the remaining True facts; a fact like `zero=False` on a complex
+coupling is implied by none). -/
+def truthyOnly (asm : Nat) : Nat := mkDecl ((declFacts asm).filter (·.2))
 
 inductive Expr where
   | sym (s : Sym)
@@ -253,8 +303,8 @@ def collect (v : Variant) (m : Model) : List Sym :=
 def natCmp (a b : Nat) : Ordering := if a < b then .lt else if b < a then .gt else .eq
 
 /-- the sort key of c9b6eb9: `(s.name, str(sorted(s.assumptions0.items())))`. Names compare as Python
-strings (code points); the assumptions id stands for the second component — the harness numbers the
-assumption sets of a run in the order of those strings. -/
+strings (code points); the numeric order of the ternary declarations is the order of the second
+component (see "assumption declarations"; re-checked by the harness on all pairs of a run). -/
 def symCmp (a b : Sym) : Ordering :=
   match natListCmp a.name b.name with
   | .eq => natCmp a.asm b.asm
@@ -277,7 +327,8 @@ def existingNamed (ρ : List (Name × Name)) (ordered : List Sym) (n : Name) : O
 def firstSource (ρ : List (Name × Name)) (ordered : List Sym) (n' : Name) : Option Sym :=
   ordered.find? (fun s => renameOf ρ s.name == some n')
 
-/-- the new symbol made for `s ↦ n'` when no unrenamed symbol is called `n'` -/
+/-- the new symbol made for `s ↦ n'` when no unrenamed symbol is called `n'`:
+`sp.Symbol(new_name, **s.assumptions0)` — the COMPLETE declaration of the (first) source is passed on -/
 def freshTarget (v : Variant) (ρ : List (Name × Name)) (ordered : List Sym) (s : Sym) (n' : Name) : Sym :=
   if v.oneSymbolPerNewName then
     match firstSource ρ ordered n' with
@@ -365,10 +416,11 @@ Requests (one per line):
   — extend the model under construction; `reset` clears it
 * `echo` — print the model under construction
 * `key NAME` — the natural-sorting key
+* `facts ASM` — the decoded declaration `declFacts` and `truthyOnly` of it
 * `rename OLD:NEW …` — apply `rename` to the model under construction and print
   `collect`, `map`, `closed` and the resulting model
 Syntax: `NAME` = decimal code points joined by `.` (`-` for the empty name),
-`SYM` = `NAME/ASM`, `E` = `(s SYM)` | `(c ID)` | `(a CLS E…)`.
+`SYM` = `NAME/ASM` (`ASM` = the ternary declaration in decimal), `E` = `(s SYM)` | `(c ID)` | `(a CLS E…)`.
 -/
 
 open Ampverif.Model.C17
@@ -474,6 +526,10 @@ def handle (st : St) (line : String) : Except String (St × List String) := do
   | some "echo" => return (st, showModel st.m ++ ["end"])
   | some "key" =>
       return (st, ["key " ++ " ".intercalate ((naturalKey (parseName (toks[1]?.getD "-"))).map showChunk)])
+  | some "facts" =>
+      let a := (toks[1]?.getD "0").toNat!
+      return (st, ["facts " ++ " ".intercalate ((declFacts a).map (fun f => toString f.1 ++ ":" ++ (if f.2 then "1" else "0")))
+                   ++ " | " ++ toString (truthyOnly a)])
   | some "rename" =>
       let ρ : List (Name × Name) := (toks.toList.drop 1).filterMap (fun t =>
         match t.splitOn ":" with
